@@ -373,7 +373,7 @@ class Check(PropertyCheck):
                'n_partial': int(((data > 0) & (data < 1)).sum()), 'area': float(reg.area)}
         return out
 
-    # ------------------------------------------------------------------ model (circle exact only)
+    # ------------------------------------------------------------------ model (circle and ellipse exact)
     def _cell_args(self, d, box, j, i):
         # replicate the double arithmetic of CirclePixelRegion.to_mask + circular_overlap_grid
         cx, cy, r = float(d['c'][0]), float(d['c'][1]), float(d['r'])
@@ -386,25 +386,46 @@ class Check(PropertyCheck):
         dy = (ymax - ymin) / ny
         return xmin + i * dx, ymin + j * dy, dx, dy, r
 
+    def _ecell_args(self, reg, box, j, i):
+        # replicate the double arithmetic of EllipsePixelRegion.to_mask + elliptical_overlap_grid
+        # (semi-axes 0.5*width, 0.5*height; the angle in radians exactly as to_mask converts it)
+        import astropy.units as u
+        cx, cy = float(reg.center.x), float(reg.center.y)
+        nx, ny = box[1] - box[0], box[3] - box[2]
+        xmin = float(box[0]) - 0.5 - cx
+        xmax = float(box[1]) - 0.5 - cx
+        ymin = float(box[2]) - 0.5 - cy
+        ymax = float(box[3]) - 0.5 - cy
+        dx = (xmax - xmin) / nx
+        dy = (ymax - ymin) / ny
+        return (xmin + i * dx, ymin + j * dy, dx, dy, 0.5 * reg.width, 0.5 * reg.height,
+                float(reg.angle.to(u.rad).value))
+
     def requests(self, case):
-        if case['kind'] != 'exact/circle':
+        if case['kind'] not in ('exact/circle', 'exact/ellipse'):
             return []
         reg = G.build(case['region'])
         m = reg.to_mask(mode='exact')
         b = m.bbox
         box = [int(b.ixmin), int(b.ixmax), int(b.iymin), int(b.iymax)]
+        # the same sample as real(): up to 40 boundary (partially covered) cells, 8 inside, 8 outside
         px = self._sample_pixels(case, np.asarray(m.data, dtype=float), box)
         reqs = []
         for (j, i) in px:
-            pxmin, pymin, dx, dy, r = self._cell_args(case['region'], box, j, i)
-            reqs.append({'op': 'exact.cell', 'pxmin': bits(pxmin), 'pymin': bits(pymin), 'dx': bits(dx), 'dy': bits(dy), 'r': bits(r)})
+            if case['kind'] == 'exact/circle':
+                pxmin, pymin, dx, dy, r = self._cell_args(case['region'], box, j, i)
+                reqs.append({'op': 'exact.cell', 'pxmin': bits(pxmin), 'pymin': bits(pymin), 'dx': bits(dx), 'dy': bits(dy), 'r': bits(r)})
+            else:
+                pxmin, pymin, dx, dy, rx, ry, theta = self._ecell_args(reg, box, j, i)
+                reqs.append({'op': 'exact.ecell', 'pxmin': bits(pxmin), 'pymin': bits(pymin), 'dx': bits(dx), 'dy': bits(dy),
+                             'rx': bits(rx), 'ry': bits(ry), 'theta': bits(theta)})
         return reqs
 
     def model(self, case, replies):
         return [r.get('ok') for r in replies]
 
     def equal(self, case, real, model):
-        if case['kind'] != 'exact/circle':
+        if case['kind'] not in ('exact/circle', 'exact/ellipse'):
             return True
         if len(model) != len(real['pixels']):
             return False
